@@ -777,6 +777,57 @@ func tlWaitEarly(s *Stream, L, Q int, oneP bool) {
 	s.Nontrivial(fmt.Sprintf("wait-early/%d/%d/%v", L, Q, oneP))
 }
 
+// ---- scenario: a backlog held for a long time (C06) --------------------------------------------------
+
+// tlLongHold: all workers pinned for `hold` while every lane is full (queue goroutines sit in their
+// blocking hand-over with a task in hand, buffers full); after the release every accepted task must
+// start exactly once. Anything time-driven in the hand-over path (polling, retries) gets time to act.
+func tlLongHold(s *Stream, L, Q int, hold time.Duration) {
+	sc := tlScenario{Kind: "long-hold", L: L, Q: Q, Detail: hold.String()}
+	ctx, cancel := context.WithCancel(context.Background())
+	defer cancel()
+	tl := tasklane.New(ctx, L, Q)
+	tl.SetTimeout(tlDeadline)
+	r := newTLRun()
+	release := make(chan struct{})
+	var pushes []tlPush
+	for i := 0; i < L; i++ {
+		t := &tlTask{id: 9000 + i, r: r, block: release}
+		pushes = append(pushes, tlPush{t.id, i, tl.PushTask(t, i)})
+	}
+	waitUntil(tlDeadline, func() bool { return r.startedCount() == L })
+	k := 0
+	for lane := 0; lane < L; lane++ {
+		for j := 0; j < Q+1; j++ {
+			t := &tlTask{id: lane*100 + j, r: r}
+			err := tl.PushTask(t, lane)
+			pushes = append(pushes, tlPush{t.id, lane, err})
+			if err == nil {
+				k++
+			}
+		}
+	}
+	time.Sleep(hold)
+	close(release)
+	if !waitUntil(tlDeadline, func() bool { _, fin, _, _ := r.snapshot(); return fin == k+L }) {
+		starts, fin, _, _ := r.snapshot()
+		var missing []int
+		for _, p := range pushes {
+			if p.err == nil && starts[p.id] == 0 {
+				missing = append(missing, p.id)
+			}
+		}
+		s.Violate("accepted-task-not-started", fmt.Sprintf("backlog held for %v: accepted=%d finished=%d, never started: %v", hold, k+L, fin, missing), sc)
+	}
+	if !waitUntil(2*time.Second, func() bool { return tl.Status().PendingTask == 0 }) {
+		s.Violate("pending-not-exact", fmt.Sprintf("everything finished but PendingTask=%d", tl.Status().PendingTask), sc)
+	}
+	cancel()
+	tlFinalChecks(s, sc, tl, r, pushes, ctx)
+	s.Evaluations++
+	s.Nontrivial(fmt.Sprintf("long-hold/%d/%d/%v", L, Q, hold))
+}
+
 // ---- scenario: odd lifetimes (C07) -----------------------------------------------------------------
 
 // tlOddLifetimes: (a) a lane built on an already cancelled / expired context: PushTask returns the
@@ -855,6 +906,11 @@ func runTL(cfg Cfg, name string) {
 				break
 			}
 			tlStress(s, rng.Fork(), i%2 == 1, false)
+		}
+		tlLongHold(s, 2, 1, 1300*time.Millisecond)
+		if cfg.Thorough() {
+			tlLongHold(s, 3, 0, 2500*time.Millisecond)
+			tlLongHold(s, 1, 2, 5500*time.Millisecond)
 		}
 	case "tl_status":
 		s.Rule = "stress with many panicking tasks of different dynamic types and a concurrent Status() poller (bounds, LastPanic membership); stable states with all workers pinned and k tasks queued compared exactly; non-trivial = distinct (L,Q,k) stable states and distinct stress outcomes"
